@@ -201,7 +201,7 @@ func expr(e ast.Expr, locals map[string]string, fset *token.FileSet) string {
 		}
 	case *ast.BinaryExpr:
 		switch x.Op {
-		case token.ADD, token.SUB, token.MUL, token.QUO:
+		case token.ADD, token.SUB, token.MUL, token.QUO, token.REM:
 			return "(.bin " + q(x.Op.String()) + " " + expr(x.X, locals, fset) + " " + expr(x.Y, locals, fset) + ")"
 		case token.LSS, token.LEQ, token.GTR, token.GEQ, token.EQL, token.NEQ:
 			return "(.cmp " + q(x.Op.String()) + " " + expr(x.X, locals, fset) + " " + expr(x.Y, locals, fset) + ")"
@@ -350,6 +350,80 @@ func main() {
 		}
 	}
 	consts = map[string]ast.Expr{}
+	// markup/processors.go: the tagless switch of processOrdinal that picks the plural case
+	f4, err := parser.ParseFile(fset, filepath.Join(repo, "markup", "processors.go"), nil, 0)
+	if err != nil {
+		fmt.Fprintln(os.Stderr, err)
+		os.Exit(1)
+	}
+	strConsts := map[string]string{}
+	for _, d := range f4.Decls {
+		if gd, ok := d.(*ast.GenDecl); ok && gd.Tok == token.CONST {
+			for _, sp := range gd.Specs {
+				vs := sp.(*ast.ValueSpec)
+				for i, n := range vs.Names {
+					if i < len(vs.Values) {
+						if bl, ok := vs.Values[i].(*ast.BasicLit); ok && bl.Kind == token.STRING {
+							if v, err := strconv.Unquote(bl.Value); err == nil {
+								strConsts[n.Name] = v
+							}
+						}
+					}
+				}
+			}
+		}
+	}
+	var ordRows []string
+	ordDefault := "?"
+	for _, d := range f4.Decls {
+		fd, ok := d.(*ast.FuncDecl)
+		if !ok || fd.Body == nil || fd.Name.Name != "processOrdinal" {
+			continue
+		}
+		locals := map[string]string{}
+		for _, st := range fd.Body.List {
+			switch x := st.(type) {
+			case *ast.AssignStmt:
+				if x.Tok == token.DEFINE && len(x.Lhs) == 1 && len(x.Rhs) == 1 {
+					if id, ok := x.Lhs[0].(*ast.Ident); ok {
+						if id.Name == "pluralCase" {
+							if c, ok := x.Rhs[0].(*ast.Ident); ok {
+								ordDefault = strConsts[c.Name]
+							}
+						} else if sel, ok := x.Rhs[0].(*ast.SelectorExpr); ok && sel.Sel.Name == "IntegerValue" {
+							locals[id.Name] = "(.var \"n\")"
+						}
+					}
+				}
+			case *ast.SwitchStmt:
+				if x.Tag != nil {
+					continue
+				}
+				for _, cc := range x.Body.List {
+					cl := cc.(*ast.CaseClause)
+					target := "?"
+					if len(cl.Body) == 1 {
+						if as, ok := cl.Body[0].(*ast.AssignStmt); ok && len(as.Rhs) == 1 {
+							if c, ok := as.Rhs[0].(*ast.Ident); ok {
+								target = strConsts[c.Name]
+							}
+						}
+					}
+					for _, cond := range cl.List {
+						ordRows = append(ordRows, "  ("+expr(cond, locals, fset)+", "+q(target)+")")
+					}
+					if len(cl.List) == 0 {
+						ordRows = append(ordRows, "  ((.unsupported \"default clause\"), "+q(target)+")")
+					}
+				}
+			}
+		}
+	}
+	fmt.Println("/-- markup/processors.go processOrdinal: the cases of its switch in order (condition over the integer value n, plural case), and the case when none applies -/")
+	fmt.Println("def ordinalSwitch : List (FE × String) := [")
+	fmt.Println(strings.Join(ordRows, ",\n"))
+	fmt.Println("]")
+	fmt.Println("def ordinalDefault : String := " + q(ordDefault))
 	fmt.Println("/-- internal/rng: radix, toRadix36, the accumulation step of seedToInt64, IntBetween -/")
 	fmt.Println("def rngSrc : List (String × List (String × String) × FE) := [")
 	fmt.Println(strings.Join(rngRows, ",\n"))
